@@ -836,7 +836,14 @@ impl TcpSession {
                 self.connection_attempt = 0;
                 self.set_back_connected(BackendConnectionStatus::Connected);
             }
-        } else if back_connected == BackendConnectionStatus::NotConnected {
+        } else if back_connected == BackendConnectionStatus::NotConnected
+            // In expect mode the backend is connected once the PROXY header has
+            // been received and the session upgraded to a pipe: the expect state
+            // has no backend slot (`set_back_socket` panics on it, which killed
+            // the worker on the first connection to such a listener), and the
+            // per-IP gate of `connect_to_backend` wants the parsed source address.
+            && !matches!(self.state, TcpStateMachine::ExpectProxyProtocol(_))
+        {
             let connection_result = self.connect_to_backend(session.clone());
             if let Err(err) = &connection_result {
                 match err {
